@@ -43,7 +43,7 @@ type infPoint struct {
 }
 
 var infFvNames = map[int]string{1: "ConvV", 2: "Same1", 3: "Map1", 4: "PairV", 5: "SumS"}
-var infNames = map[int]string{15: "Collect", 16: "Cast", 17: "Mk", 1: "Id", 2: "Eq", 3: "Sum", 4: "Map", 5: "Keys", 6: "Ptr", 7: "Sl", 8: "Two", 9: "Conv", 10: "Ai", 11: "App", 12: "Same", 13: "Fn", 14: "SlE", 18: "Gather"}
+var infNames = map[int]string{15: "Collect", 16: "Cast", 17: "Mk", 1: "Id", 2: "Eq", 3: "Sum", 4: "Map", 5: "Keys", 6: "Ptr", 7: "Sl", 8: "Two", 9: "Conv", 10: "Ai", 11: "App", 12: "Same", 13: "Fn", 14: "SlE", 18: "Gather", 19: "KeysX", 20: "Show"}
 
 const infFixture = `package ov
 
@@ -68,6 +68,15 @@ func Collect[R, T any](xs ...T) func(R, T)               { return nil }
 func Cast[R, T any](x T) func(R, T)                      { return nil }
 func Mk[R any]() func(R)                                 { return nil }
 func Gather[T, U any](u U, xs ...T) func(T, U)           { return nil }
+func KeysX[K comparable](m map[K]int, extra ...K) func(K) { return nil }
+
+type MyLab string
+
+func (MyLab) String() string { return "" }
+
+type Stringer interface{ String() string }
+
+func Show[T Stringer](x int) func(T) { return nil }
 
 // the same three as type-as-parameter functions: XCollect(R, xs...), XCast(R, x), XMk(R)
 const XGoPackage = true
@@ -235,6 +244,8 @@ func infReference(ovPkg *types.Package, base types.Importer, pts []infPoint) ([]
 }
 
 type infWorld struct {
+	loaders map[*types.Named]func() // delay-loaded types (Config.LoadNamed)
+	nlab    int
 	nbody int
 	pkg   *gogen.Package
 	ov    gogen.PkgRef
@@ -244,7 +255,14 @@ type infWorld struct {
 
 func newInfWorld(ovPkg *types.Package, base types.Importer) *infWorld {
 	w := &infWorld{}
-	w.pkg = gogen.NewPackage("", "p", &gogen.Config{Fset: token.NewFileSet(), Importer: ovImporter{ovPkg, base}, HandleErr: func(e error) { w.errs = append(w.errs, e.Error()) }})
+	w.pkg = gogen.NewPackage("", "p", &gogen.Config{Fset: token.NewFileSet(), Importer: ovImporter{ovPkg, base}, HandleErr: func(e error) { w.errs = append(w.errs, e.Error()) },
+		LoadNamed: func(at *gogen.Package, t *types.Named) {
+			if f := w.loaders[t]; f != nil {
+				delete(w.loaders, t)
+				f()
+			}
+		}})
+	w.loaders = map[*types.Named]func(){}
 	pkg := w.pkg
 	w.ov = pkg.Import("ov")
 	ti, tf, ts := types.Typ[types.Int], types.Typ[types.Float64], types.Typ[types.String]
@@ -282,6 +300,23 @@ func (w *infWorld) explType(n string) types.Type {
 		return w.ov.Ref("MyInt").Type()
 	case "ov.MySl":
 		return w.ov.Ref("MySl").Type()
+	case "ov.MyLab":
+		// realised delay-loaded: a fresh type object whose underlying type and method arrive when Config.LoadNamed asks for
+		// them - as explicit type argument of a function with a method constraint it is the first use that needs the methods
+		real := w.ov.Ref("MyLab").Type().(*types.Named)
+		d := types.NewNamed(types.NewTypeName(token.NoPos, real.Obj().Pkg(), "MyLab", nil), nil, nil)
+		// two shapes of an incomplete type, in turn: nothing known yet / the underlying type known and the methods not yet
+		w.nlab++
+		if w.nlab%2 == 0 {
+			d.SetUnderlying(real.Underlying())
+		}
+		w.loaders[d] = func() {
+			d.SetUnderlying(real.Underlying())
+			m := real.Method(0)
+			sig := m.Type().(*types.Signature)
+			d.AddMethod(types.NewFunc(token.NoPos, m.Pkg(), m.Name(), types.NewSignatureType(types.NewVar(token.NoPos, m.Pkg(), "", d), nil, nil, sig.Params(), sig.Results(), false)))
+		}
+		return d
 	}
 	panic("harness: explicit type " + n)
 }
@@ -525,11 +560,11 @@ func runC07(tier, replay string) {
 		states, transitions = 1, 1
 	} else {
 		forms := `{"vi","vf","vs","vmy","vsl","vmysl","vslf","vm","vpi","vfis","vfii","c1","c15","cs","nil"}`
-		cfgs := []string{fmt.Sprintf("INIT Init\nNEXT Next\nCONSTANTS\n  SigIds = {1,2,3,4,5,6,7,8,9,10,11,12,13,14,15,16,17,18}\n  Forms = %s\n  ExplNames = {\"int\",\"float64\",\"MySl\",\"[]string\"}\n  MaxExpl = 1\n  MaxVariadic = 2\n  FvSigs = {1,2,3,4,5}\n  TypeInst = TRUE\n  PvSigs = {1,2,3,7,8,10,14}\nINVARIANTS ExplicitRespected InferredSatisfies Symmetric Emit\nCHECK_DEADLOCK FALSE\n", forms)}
+		cfgs := []string{fmt.Sprintf("INIT Init\nNEXT Next\nCONSTANTS\n  SigIds = {1,2,3,4,5,6,7,8,9,10,11,12,13,14,15,16,17,18,19,20}\n  Forms = %s\n  ExplNames = {\"int\",\"float64\",\"MySl\",\"[]string\",\"MyLab\"}\n  MaxExpl = 1\n  MaxVariadic = 2\n  FvSigs = {1,2,3,4,5}\n  TypeInst = TRUE\n  PvSigs = {1,2,3,7,8,10,14}\nINVARIANTS ExplicitRespected InferredSatisfies Symmetric Emit\nCHECK_DEADLOCK FALSE\n", forms)}
 		if tier == "thorough" {
 			cfgs = append(cfgs,
 				fmt.Sprintf("INIT Init\nNEXT Next\nCONSTANTS\n  SigIds = {4,5,7,8,9,14,16,17}\n  Forms = %s\n  ExplNames = {\"int\",\"float64\",\"string\",\"MyInt\",\"MySl\",\"[]int\",\"[]string\"}\n  MaxExpl = 2\n  MaxVariadic = 0\n  FvSigs = {1,2,3,4,5}\n  TypeInst = TRUE\n  PvSigs = {1,2,3,7,8,10,14}\nINVARIANTS ExplicitRespected InferredSatisfies Symmetric Emit\nCHECK_DEADLOCK FALSE\n", forms),
-				fmt.Sprintf("INIT Init\nNEXT Next\nCONSTANTS\n  SigIds = {3,11,15,18}\n  Forms = %s\n  ExplNames = {\"int\",\"float64\",\"MyInt\"}\n  MaxExpl = 2\n  MaxVariadic = 3\n  FvSigs = {}\n  TypeInst = FALSE\n  PvSigs = {}\nINVARIANTS ExplicitRespected InferredSatisfies Symmetric Emit\nCHECK_DEADLOCK FALSE\n", `{"vi","vf","vmy","vsl","vmysl","c1","c15","cs","nil"}`))
+				fmt.Sprintf("INIT Init\nNEXT Next\nCONSTANTS\n  SigIds = {3,11,15,18,19}\n  Forms = %s\n  ExplNames = {\"int\",\"float64\",\"MyInt\"}\n  MaxExpl = 2\n  MaxVariadic = 3\n  FvSigs = {}\n  TypeInst = FALSE\n  PvSigs = {}\nINVARIANTS ExplicitRespected InferredSatisfies Symmetric Emit\nCHECK_DEADLOCK FALSE\n", `{"vi","vf","vmy","vsl","vmysl","c1","c15","cs","nil"}`))
 		}
 		seen := map[string]bool{}
 		for ci, cfg := range cfgs {
